@@ -17,7 +17,11 @@ import (
 	"verif/harness/internal/drv"
 )
 
-type G struct{ r *rand.Rand }
+type G struct {
+	r          *rand.Rand
+	single     bool // sets and maps get at most one member, so that comparisons do not depend on map order
+	extraDepth int
+}
 
 func (g *G) pick(xs ...string) string { return xs[g.r.Intn(len(xs))] }
 
@@ -42,7 +46,10 @@ func (g *G) bytes() string {
 // re-serialization is not canonical on the Go side (map order, float formatting)
 func (g *G) value(depth int, unordered *bool) string {
 	n := g.r.Intn(17)
-	if depth > 3 && n >= 6 && n <= 10 {
+	if g.single && depth < 3 && g.r.Intn(2) == 0 {
+		n = 6 + g.r.Intn(3) // nest aggregates inside aggregates: array / set / map
+	}
+	if depth > 3+g.extraDepth && n >= 6 && n <= 10 {
 		n = 0
 	}
 	switch n {
@@ -63,18 +70,33 @@ func (g *G) value(depth int, unordered *bool) string {
 		}
 		return s
 	case 7:
-		*unordered = true
 		k := g.r.Intn(3)
+		if g.single {
+			k = g.r.Intn(2) // at most one member: the order Go's map iteration gives cannot matter
+		} else {
+			*unordered = true
+		}
 		s := fmt.Sprintf("~%d\r\n", k)
 		for i := 0; i < k; i++ {
 			s += g.value(depth+1, unordered)
 		}
 		return s
 	case 8:
-		*unordered = true
 		k := g.r.Intn(3)
+		if g.single {
+			k = g.r.Intn(2)
+		} else {
+			*unordered = true
+		}
 		s := fmt.Sprintf("%s%d\r\n", g.pick("%", "|"), k)
 		for i := 0; i < 2*k; i++ {
+			if g.single && i%2 == 0 {
+				// the emulator's own maps are keyed by strings; other key kinds are formatted by
+				// fmt.Sprintf and are outside what the property speaks about
+				b := g.bytes()
+				s += fmt.Sprintf("$%d\r\n%s\r\n", len(b), b)
+				continue
+			}
 			s += g.value(depth+1, unordered)
 		}
 		return s
@@ -93,7 +115,12 @@ func (g *G) value(depth int, unordered *bool) string {
 		case 1:
 			return "*?\r\n" + g.value(depth+1, unordered) + g.value(depth+1, unordered) + ".\r\n"
 		default:
-			*unordered = true
+			if !g.single {
+				*unordered = true
+			}
+			if g.single {
+				return "%?\r\n+key\r\n" + g.value(depth+1, unordered) + ".\r\n"
+			}
 			return "%?\r\n" + g.value(depth+1, unordered) + g.value(depth+1, unordered) + ".\r\n"
 		}
 	case 11:
@@ -178,8 +205,16 @@ func main() {
 	}
 	for i := 0; i < *n && stats["failures"] == 0; i++ {
 		unordered := false
+		g.single = i%2 == 1
+		g.extraDepth = 0
+		if g.single {
+			g.extraDepth = 2
+		}
 		s := g.value(0, &unordered)
-		if g.r.Intn(3) == 0 {
+		if strings.Contains(s, ",") && !g.single {
+			unordered = true
+		}
+		if !g.single && g.r.Intn(3) == 0 {
 			s = g.mutate(s)
 			unordered = true // mutated inputs: compare validity and length only
 		}
